@@ -1,15 +1,34 @@
+//! One module per property (or family). Cargo features select what is compiled: "search" is the
+//! family that drives the move generator and the searcher (C01 C02 C05 C06 C07 C08 C09 C17), the
+//! others are single properties with a narrow interface to the repository, "bb" the black-box
+//! checks that need nothing but the engine binary.
+#[cfg(feature = "search")]
 pub mod c05;
+#[cfg(feature = "search")]
 pub mod c0607;
-pub mod c10;
-pub mod c11;
-pub mod c12;
-pub mod c14;
-pub mod c15;
-pub mod posprops;
-pub mod c04;
+#[cfg(feature = "search")]
 pub mod c08;
+#[cfg(feature = "search")]
 pub mod c08retro;
+#[cfg(feature = "search")]
 pub mod c09;
+#[cfg(feature = "search")]
+pub mod posprops;
+#[cfg(feature = "c10")]
+pub mod c10;
+#[cfg(feature = "c11")]
+pub mod c11;
+#[cfg(feature = "c12")]
+pub mod c12;
+#[cfg(feature = "c14")]
+pub mod c14;
+#[cfg(feature = "c15")]
+pub mod c15;
+#[cfg(feature = "c04")]
+pub mod c04;
+#[cfg(feature = "bb")]
 pub mod c03;
+#[cfg(feature = "bb")]
 pub mod c13;
+#[cfg(feature = "bb")]
 pub mod c16;
